@@ -60,17 +60,15 @@ func pipeRules(c *Ctx) {
 	}
 	e := effects(c)
 	type phase struct {
-		name string
-		call *ast.CallExpr
-		fn   *core.FuncInfo
+		name    string
+		call    *ast.CallExpr
+		fn      *core.FuncInfo
+		order   int64    // execution order: source position, refined by the element index for a table of steps
+		errOnly bool     // runs under no condition other than the error tests of the phases before it
+		others  []string // the other conditions, options members named canonically
 	}
 	var phases []phase
-	for _, call := range calls(flat.Decl.Body) {
-		callee := c.P.StaticCallee(flat, call)
-		if callee == nil || c.P.Funcs[callee] == nil {
-			continue
-		}
-		cf := c.P.Funcs[callee]
+	classify := func(cf *core.FuncInfo) string {
 		name := ""
 		switch {
 		case c.reachesExternal(cf, "github.com/go-openapi/spec.ExpandSpec"):
@@ -95,19 +93,26 @@ func pipeRules(c *Ctx) {
 				}
 			}
 		}
-		if name != "" {
-			phases = append(phases, phase{name, call, cf})
-		}
+		return name
 	}
-	byName := map[string][]phase{}
-	for _, p := range phases {
-		byName[p.name] = append(byName[p.name], p)
-	}
-	condsOf := func(call *ast.CallExpr) (errOnly bool, others []string) {
+	condsOf := func(call *ast.CallExpr, loopVar types.Object) (errOnly bool, others []string) {
 		errOnly = true
 		for _, cd := range c.conds(flat, call) {
 			if x, _, ok := core.NilTest(info, cd); ok && core.IsErrorType(info.TypeOf(x)) {
 				continue
+			}
+			// the per-element guard of a table of steps is accounted for element by element
+			if loopVar != nil {
+				mentions := false
+				ast.Inspect(cd.Expr, func(m ast.Node) bool {
+					if id, ok := m.(*ast.Ident); ok && info.Uses[id] == loopVar {
+						mentions = true
+					}
+					return true
+				})
+				if mentions {
+					continue
+				}
 			}
 			if cd.Kind == core.CondBool {
 				// the call's own `if err := f(); err != nil` wrapper does not count
@@ -129,8 +134,65 @@ func pipeRules(c *Ctx) {
 		sort.Strings(others)
 		return
 	}
+	// the providers of step tables are not phases themselves
+	tableProviders := map[*ast.CallExpr]bool{}
+	ast.Inspect(flat.Decl.Body, func(nd ast.Node) bool {
+		if rs, ok := nd.(*ast.RangeStmt); ok {
+			if steps, _ := c.stepTable(flat, rs); steps != nil {
+				for _, call := range calls(rs.X) {
+					tableProviders[call] = true
+				}
+			}
+		}
+		return true
+	})
+	for _, call := range calls(flat.Decl.Body) {
+		callee := c.P.StaticCallee(flat, call)
+		if callee == nil || c.P.Funcs[callee] == nil || tableProviders[call] {
+			continue
+		}
+		cf := c.P.Funcs[callee]
+		if name := classify(cf); name != "" {
+			errOnly, others := condsOf(call, nil)
+			phases = append(phases, phase{name, call, cf, int64(call.Pos()) << 16, errOnly, others})
+		}
+	}
+	// a table of steps run by a loop: each element is a phase, in the order of the table
+	ast.Inspect(flat.Decl.Body, func(nd ast.Node) bool {
+		rs, ok := nd.(*ast.RangeStmt)
+		if !ok {
+			return true
+		}
+		steps, run := c.stepTable(flat, rs)
+		if steps == nil {
+			return true
+		}
+		baseErrOnly, baseOthers := condsOf(run, core.ObjOf(info, rs.Value))
+		for i, st := range steps {
+			name := classify(st.fn)
+			if name == "" {
+				continue
+			}
+			errOnly, others := baseErrOnly, append([]string{}, baseOthers...)
+			if st.guarded {
+				errOnly = false
+				if st.known {
+					others = append(others, st.guards...)
+				} else {
+					others = append(others, "<guard of element "+fmt.Sprint(i)+" not read>")
+				}
+				sort.Strings(others)
+			}
+			phases = append(phases, phase{name, run, st.fn, int64(run.Pos())<<16 + int64(i) + 1, errOnly, others})
+		}
+		return true
+	})
+	byName := map[string][]phase{}
+	for _, p := range phases {
+		byName[p.name] = append(byName[p.name], p)
+	}
 	// mandatory phases: exactly once, unconditional, in order
-	lastPos := flat.Decl.Pos()
+	lastPos := int64(flat.Decl.Pos()) << 16
 	for _, nm := range []string{"expand", "import", "pointers"} {
 		ps := byName[nm]
 		for _, prop := range []string{"C02"} {
@@ -138,21 +200,21 @@ func pipeRules(c *Ctx) {
 				c.S.Decide(false, prop, "PIPE-ORDER", "Flatten/"+nm, c.P.Pos(flat.Decl.Pos()), "", fmt.Sprintf("Flatten calls the %s phase %d times (expected exactly once on every success path)", nm, len(ps)))
 				continue
 			}
-			errOnly, others := condsOf(ps[0].call)
-			ok := errOnly && ps[0].call.Pos() > lastPos
+			errOnly, others := ps[0].errOnly, ps[0].others
+			ok := errOnly && ps[0].order > lastPos
 			c.S.Decide(ok, prop, "PIPE-ORDER", "Flatten/"+nm, c.P.Pos(ps[0].call.Pos()),
 				"the "+nm+" phase ("+ps[0].fn.Obj.Name()+") runs on every success path, after the previous phase",
 				fmt.Sprintf("the %s phase (%s) is conditional on [%s] or out of order: a success exit of Flatten can be reached without it, leaving $refs it is responsible for", nm, ps[0].fn.Obj.Name(), strings.Join(others, ", ")))
 		}
 		if len(ps) == 1 {
-			lastPos = ps[0].call.Pos()
+			lastPos = ps[0].order
 		}
 	}
 	// C05: the same three phases are what removes the $refs in Expand mode (full expansion, import of the circular
 	// remote $refs that survive, pointer stripping): they run unconditionally, so in Expand mode too
 	for _, nm := range []string{"expand", "import", "pointers"} {
 		if ps := byName[nm]; len(ps) == 1 {
-			errOnly, others := condsOf(ps[0].call)
+			errOnly, others := ps[0].errOnly, ps[0].others
 			c.S.Decide(errOnly, "C05", "PIPE-ORDER", "Flatten/"+nm, c.P.Pos(ps[0].call.Pos()),
 				"the "+nm+" phase runs in every mode, Expand included",
 				fmt.Sprintf("the %s phase is conditional on [%s]: in Expand mode the $refs it is responsible for can remain", nm, strings.Join(others, ", ")))
@@ -163,9 +225,9 @@ func pipeRules(c *Ctx) {
 	c.expandModeRule(flat)
 	// inline naming: only under !Minimal && !Expand, between import and pointers
 	if ps := byName["inline"]; len(ps) == 1 {
-		_, others := condsOf(ps[0].call)
+		others := ps[0].others
 		want := "!opts.Expand, !opts.Minimal"
-		okPos := len(byName["import"]) == 1 && len(byName["pointers"]) == 1 && ps[0].call.Pos() > byName["import"][0].call.Pos() && ps[0].call.Pos() < byName["pointers"][0].call.Pos()
+		okPos := len(byName["import"]) == 1 && len(byName["pointers"]) == 1 && ps[0].order > byName["import"][0].order && ps[0].order < byName["pointers"][0].order
 		c.S.Decide(strings.Join(others, ", ") == want && okPos, "C03", "PIPE-ORDER", "Flatten/inline", c.P.Pos(ps[0].call.Pos()),
 			"inline schemas are named exactly in full mode (neither Minimal nor Expand), after import and before pointer naming",
 			"inline naming runs under ["+strings.Join(others, ", ")+"] (expected ["+want+"]) or out of order")
@@ -179,12 +241,12 @@ func pipeRules(c *Ctx) {
 			c.S.Decide(false, "C06", "PIPE-ORDER", "Flatten/"+nm, c.P.Pos(flat.Decl.Pos()), "", fmt.Sprintf("%d calls of the %s step in Flatten (expected 1)", len(ps), nm))
 			continue
 		}
-		_, others := condsOf(ps[0].call)
+		others := ps[0].others
 		ok := strings.Join(others, ", ") == "opts.RemoveUnused"
 		if nm == "clearShared" {
-			ok = ok && len(byName["import"]) == 1 && ps[0].call.Pos() < byName["import"][0].call.Pos() && len(byName["expand"]) == 1 && ps[0].call.Pos() > byName["expand"][0].call.Pos()
+			ok = ok && len(byName["import"]) == 1 && ps[0].order < byName["import"][0].order && len(byName["expand"]) == 1 && ps[0].order > byName["expand"][0].order
 		} else {
-			ok = ok && len(byName["pointers"]) == 1 && ps[0].call.Pos() > byName["pointers"][0].call.Pos()
+			ok = ok && len(byName["pointers"]) == 1 && ps[0].order > byName["pointers"][0].order
 		}
 		c.S.Decide(ok, "C06", "PIPE-ORDER", "Flatten/"+nm, c.P.Pos(ps[0].call.Pos()),
 			nm+" runs exactly when RemoveUnused is set, at its place in the pipeline",
@@ -194,7 +256,7 @@ func pipeRules(c *Ctx) {
 	if ps := byName["clearShared"]; len(ps) == 1 {
 		var bad []string
 		for _, p := range phases {
-			if p.call.Pos() <= ps[0].call.Pos() {
+			if p.order <= ps[0].order {
 				continue
 			}
 			for _, w := range e.sortedWrites(p.fn) {
@@ -1296,4 +1358,179 @@ func (c *Ctx) complexMove(namer *core.FuncInfo) {
 	c.S.Decide(equiv, "C03", "GUARD-COMPLEXDEF", cx.QName(), c.P.Pos(cx.Decl.Pos()),
 		"complex ≡ ¬simple ∧ ¬array ∧ ¬map (truth table over the flags)",
 		"isAnalyzedAsComplex is "+exprStr(ret.Results[0])+", which is not equivalent to !IsSimpleSchema && !IsArray && !IsMap: objects with properties, allOf compositions or tuples can stay inline (or simple schemas get named)")
+}
+
+// tableStep is one element of a table of steps run by a loop: `for _, st := range steps() { if !st.enabled(…) {
+// continue }; if err := st.run(…); err != nil { return err } }`.
+type tableStep struct {
+	fn      *core.FuncInfo // the function the element's run member denotes (through adapters)
+	guarded bool           // the element has a guard member (it may be skipped)
+	guards  []string       // the atoms of the guard, options members named canonically ("opts.X", "!opts.Y")
+	known   bool           // the guard could be read
+}
+
+// stepTable recognises a loop over a table of step records and resolves its elements, in order. The table is a
+// composite literal of struct elements, held in a local or returned by a module function; the member called in the
+// loop body (`st.run(…)`) denotes a function, a method expression, or an adapter applied to one; another
+// function-typed member of the element, if any, is its guard (a closure whose single result is a condition over the
+// options).
+func (c *Ctx) stepTable(fi *core.FuncInfo, rs *ast.RangeStmt) ([]tableStep, *ast.CallExpr) {
+	info := c.info(fi)
+	if rs.Value == nil {
+		return nil, nil
+	}
+	rv := core.ObjOf(info, rs.Value)
+	if rv == nil {
+		return nil, nil
+	}
+	// the call through a function-typed member of the loop variable
+	var run *ast.CallExpr
+	var runField *types.Var
+	for _, call := range calls(rs.Body) {
+		sel, ok := core.Unparen(call.Fun).(*ast.SelectorExpr)
+		if !ok || core.ObjOf(info, sel.X) != rv {
+			continue
+		}
+		if fv := core.FieldOf(info, sel); fv != nil {
+			if sig, isSig := fv.Type().Underlying().(*types.Signature); isSig && sig.Results().Len() == 1 && core.IsErrorType(sig.Results().At(0).Type()) {
+				run, runField = call, fv
+			}
+		}
+	}
+	if run == nil {
+		return nil, nil
+	}
+	// the table literal
+	lfi, lit := fi, core.Unparen(rs.X)
+	for hops := 0; hops < 3; hops++ {
+		if o := core.ObjOf(c.info(lfi), lit); o != nil {
+			if defs := c.P.Locals(lfi).Defs[o]; len(defs) == 1 && defs[0].Kind == core.DefAssign && defs[0].Expr != nil {
+				lit = core.Unparen(defs[0].Expr)
+				continue
+			}
+		}
+		if call, isCall := lit.(*ast.CallExpr); isCall {
+			g := c.P.Funcs[c.P.StaticCallee(lfi, call)]
+			if g == nil || g.Decl == nil || g.Decl.Body == nil || len(g.Decl.Body.List) == 0 {
+				return nil, nil
+			}
+			ret, isRet := g.Decl.Body.List[len(g.Decl.Body.List)-1].(*ast.ReturnStmt)
+			if !isRet || len(ret.Results) != 1 {
+				return nil, nil
+			}
+			lfi, lit = g, core.Unparen(ret.Results[0])
+			continue
+		}
+		break
+	}
+	cl, isLit := lit.(*ast.CompositeLit)
+	if !isLit {
+		return nil, nil
+	}
+	linfo := c.info(lfi)
+	// resolve a function-valued expression of the literal's function to a module function
+	var resolveFn func(e ast.Expr, depth int) *core.FuncInfo
+	resolveFn = func(e ast.Expr, depth int) *core.FuncInfo {
+		e = core.Unparen(e)
+		if depth > 3 {
+			return nil
+		}
+		switch x := e.(type) {
+		case *ast.Ident:
+			if f, ok := linfo.Uses[x].(*types.Func); ok {
+				return c.P.Funcs[f.Origin()]
+			}
+			if o := core.ObjOf(linfo, x); o != nil {
+				if defs := c.P.Locals(lfi).Defs[o]; len(defs) == 1 && defs[0].Kind == core.DefAssign {
+					return resolveFn(defs[0].Expr, depth+1)
+				}
+			}
+		case *ast.SelectorExpr:
+			if f, ok := linfo.Uses[x.Sel].(*types.Func); ok {
+				return c.P.Funcs[f.Origin()]
+			}
+		case *ast.CallExpr:
+			// adapter(f): a module function that returns a literal calling its function parameter
+			h := c.P.Funcs[c.P.StaticCallee(lfi, x)]
+			if h == nil || len(x.Args) != 1 || h.Decl == nil || h.Decl.Body == nil {
+				return nil
+			}
+			hinfo := c.info(h)
+			hp := paramObj(h, 0)
+			callsParam := false
+			ast.Inspect(h.Decl.Body, func(n ast.Node) bool {
+				if cc, ok := n.(*ast.CallExpr); ok && hp != nil && core.ObjOf(hinfo, cc.Fun) == types.Object(hp) {
+					callsParam = true
+				}
+				return true
+			})
+			if callsParam {
+				return resolveFn(x.Args[0], depth+1)
+			}
+		}
+		return nil
+	}
+	// the guard of an element: a closure (literal, or local holding one) with a single returned condition
+	guardOf := func(e ast.Expr) ([]string, bool) {
+		e = core.Unparen(e)
+		if o := core.ObjOf(linfo, e); o != nil {
+			if defs := c.P.Locals(lfi).Defs[o]; len(defs) == 1 && defs[0].Kind == core.DefAssign && defs[0].Expr != nil {
+				e = core.Unparen(defs[0].Expr)
+			}
+		}
+		fl, ok := e.(*ast.FuncLit)
+		if !ok || len(fl.Body.List) != 1 {
+			return nil, false
+		}
+		ret, ok := fl.Body.List[0].(*ast.ReturnStmt)
+		if !ok || len(ret.Results) != 1 {
+			return nil, false
+		}
+		var atoms []string
+		for _, cd := range core.SplitCond(ret.Results[0], false) {
+			txt := exprStr(cd.Expr)
+			if sel, isSel := core.Unparen(cd.Expr).(*ast.SelectorExpr); isSel {
+				if fv := core.FieldOf(linfo, sel); fv != nil && strings.HasSuffix(core.OwnerStruct(c.P, fv), ".FlattenOpts") {
+					txt = "opts." + fv.Name()
+				}
+			}
+			if cd.Neg {
+				txt = "!" + txt
+			}
+			atoms = append(atoms, txt)
+		}
+		sort.Strings(atoms)
+		return atoms, true
+	}
+	var out []tableStep
+	for _, el := range cl.Elts {
+		ecl, ok := core.Unparen(el).(*ast.CompositeLit)
+		if !ok {
+			return nil, nil
+		}
+		st := tableStep{known: true}
+		for _, f := range ecl.Elts {
+			kv, ok := f.(*ast.KeyValueExpr)
+			if !ok {
+				return nil, nil
+			}
+			name, ok := kv.Key.(*ast.Ident)
+			if !ok {
+				return nil, nil
+			}
+			if name.Name == runField.Name() {
+				st.fn = resolveFn(kv.Value, 0)
+				continue
+			}
+			if _, isSig := linfo.TypeOf(kv.Value).Underlying().(*types.Signature); isSig {
+				st.guarded = true
+				st.guards, st.known = guardOf(kv.Value)
+			}
+		}
+		if st.fn == nil {
+			return nil, nil
+		}
+		out = append(out, st)
+	}
+	return out, run
 }
